@@ -106,6 +106,27 @@ theorem endless_builder_with_progress_returns (b : Nat → Option Nat) (cfg : Cf
   rw [Props.C19Exec.gen_bodies_parsed]
   exact Lemmas.DynExec.draw_progress b cfg W H F Mx hb h1 h2 hF
 
+/-- **… from any state in which no upward scroll is due** (`offset + pending ≥ 0`: reachable by any history of selection
+    changes, downward wheel events and draws; upward scrolls consult the Builder only below the top widget, which the
+    finite-builder theorems cover): the executed `Draw` returns with at most `max 1 k` children,
+    `k = max (H + offset + pending) (cursor + 1 − top)` — the rows to fill and the distance to a cursor still to be reached. -/
+theorem endless_builder_with_progress_returns_any_state (b : Nat → Option Nat) (cfg : Cfg) (s : St) (W H F Mx : Nat)
+    (hb : ∀ i, ∃ h, b i = some h ∧ h ≤ Mx ∧ 1 ≤ (h : Int) + cfg.gap)
+    (h1 : H < 65535) (h2 : W ≠ 65535) (hno : 0 ≤ s.offset + s.pending)
+    (hF : max (H + (s.offset + s.pending).toNat) (s.cursor + 1 - s.top) + H + Mx + 3 ≤ F)
+    (hidx : s.top + max (H + (s.offset + s.pending).toNat) (s.cursor + 1 - s.top) + 1 < 2 ^ 64) :
+    ∃ st cs, runDraw genBodies b cfg s W H F = .ok (st, cs) ∧
+      cs.length ≤ max (max (H + (s.offset + s.pending).toNat) (s.cursor + 1 - s.top)) 1 := by
+  have hp : (prologue s).1 = - (s.offset + s.pending) := by
+    unfold prologue
+    have : ¬ (- (s.offset + s.pending) > 0 ∧ s.top = 0) := by omega
+    simp only [this, if_false]
+  have hk : ((H : Int) - (prologue s).1).toNat = H + (s.offset + s.pending).toNat := by rw [hp]; omega
+  rw [Props.C19Exec.gen_bodies_parsed]
+  have := Lemmas.DynExec.draw_progress2 b cfg s W H F Mx hb h1 h2 (by rw [hp]; omega) (by rw [hk]; exact hF) (by rw [hk]; exact hidx)
+  rw [hk] at this
+  exact this
+
 /-- Non-vacuity: an endless list of one-row widgets, viewport 10 × 4: four children. -/
 example : (match runDraw genBodies (fun _ => some 1) ⟨0, false⟩ init 10 4 8 with
      | .ok (_, cs) => cs.length == 4
